@@ -15,7 +15,7 @@
    the uniaxial reduction are validated on the implementation by
    harness/props/c05.py, not proved. *)
 From Coq Require Import QArith Reals List Bool String Lra.
-From SV Require Import model.Life proofs.LifeInvariance model.Weibull proofs.WeibullProofs proofs.WeibullLaws gen.WeibullTables.
+From SV Require Import model.Life proofs.LifeInvariance model.Weibull proofs.WeibullProofs proofs.WeibullLaws gen.WeibullTables proofs.Lame.
 Import ListNotations.
 
 Theorem C05_assembled_tensor_is_stress :
@@ -138,3 +138,16 @@ Proof.
   - ring.
   - replace 1%R with (1 * 1)%R by ring. apply Rmult_le_compat; lra.
 Qed.
+
+(* element volumes (Tube.element_volumes, formulas regenerated from receiver.py): the trapezoid formula of
+   the code is the difference of two polygon sectors *)
+Theorem C05_element_area_formula :
+  forall ri ro th, (0 <= ri <= ro)%R -> (0 <= th <= PI)%R ->
+  let a := (2 * ri * sin (th / 2))%R in let b := (2 * ro * sin (th / 2))%R in
+  ((a + b) / 2 * sqrt ((ro - ri) * (ro - ri) - ((b - a) / 2) * ((b - a) / 2)) = (ro * ro - ri * ri) / 2 * sin th)%R.
+Proof. exact element_area_formula. Qed.
+Print Assumptions C05_element_area_formula.
+
+Theorem C05_volume_formulas_as_modelled : volume_formulas_as_modelled = true.
+Proof. reflexivity. Qed.
+Print Assumptions C05_volume_formulas_as_modelled.
